@@ -464,17 +464,30 @@ func Accounting(ssn *framework.Session, where string, tr *Tracker) []Problem {
 			b := rebuild(ni, vm, true)
 			if a != nil && b != nil && near(a.Idle.GPUs(), b.Idle.GPUs()) && near(a.Releasing.GPUs(), b.Releasing.GPUs()) {
 				if !near(a.Idle.GPUs(), ni.Idle.GPUs()) || !near(a.Releasing.GPUs(), ni.Releasing.GPUs()) || !near(a.Used.GPUs(), ni.Used.GPUs()) {
-					// fingerprint of the device sharers: identifies WHICH configuration drifts
+					// fingerprint of the device sharers: identifies WHICH configuration drifts. The key carries
+					// the direction of the drift and the SET of sharer status classes on the node (the whole-GPU
+					// counters of shared devices only drift when a sharer is releasing or nominated); the exact
+					// sizes go into the message.
 					fp := []string{}
+					classes := map[string]bool{}
 					for _, t := range ni.PodInfos {
 						if t.IsSharedGPUAllocation() {
 							fp = append(fp, fmt.Sprintf("%d:%s", ni.GetResourceGpuMemory(t.ResReq), statusClass(t.Status)))
+							classes[statusClass(t.Status)] = true
 						}
 					}
 					sort.Strings(fp)
-					add(fmt.Sprintf("node-gpu-counters-differ-from-rebuild idle%+.0f releasing%+.0f sharers=%s", ni.Idle.GPUs()-a.Idle.GPUs(), ni.Releasing.GPUs()-a.Releasing.GPUs(), strings.Join(fp, ",")),
-						"node %s GPUs used/idle/releasing = %.2f/%.2f/%.2f, a NodeInfo rebuilt from the same %d pods has %.2f/%.2f/%.2f", name,
-						ni.Used.GPUs(), ni.Idle.GPUs(), ni.Releasing.GPUs(), len(ni.PodInfos), a.Used.GPUs(), a.Idle.GPUs(), a.Releasing.GPUs())
+					cl := []string{}
+					for c := range classes {
+						cl = append(cl, c)
+					}
+					sort.Strings(cl)
+					if len(cl) == 0 {
+						cl = []string{"none"}
+					}
+					add(fmt.Sprintf("node-gpu-counters-differ-from-rebuild idle%+.0f releasing%+.0f sharer-statuses=%s", ni.Idle.GPUs()-a.Idle.GPUs(), ni.Releasing.GPUs()-a.Releasing.GPUs(), strings.Join(cl, "+")),
+						"node %s GPUs used/idle/releasing = %.2f/%.2f/%.2f, a NodeInfo rebuilt from the same %d pods has %.2f/%.2f/%.2f (sharers: %s)", name,
+						ni.Used.GPUs(), ni.Idle.GPUs(), ni.Releasing.GPUs(), len(ni.PodInfos), a.Used.GPUs(), a.Idle.GPUs(), a.Releasing.GPUs(), strings.Join(fp, ","))
 				}
 			}
 			// bounds hold regardless
